@@ -40,7 +40,8 @@ theorem c14_subscribe_running (s : Stack) (g : Eventgroup) (d : Addr) (h : s.ali
 
 /-- requesting while stopped: recorded only (sent by the next start) -/
 theorem c14_subscribe_stopped (s : Stack) (g : Eventgroup) (d : Addr) (h : s.alive = false) :
-    s.subscribeEventgroup g d = { s with subEntries := s.subEntries ++ [(g, d)] } := by
+    s.subscribeEventgroup g d =
+      { s with subDup := s.subDup || decide ((g, d) ∈ s.subEntries), subEntries := s.subEntries ++ [(g, d)] } := by
   simp [subscribeEventgroup, h]
 
 /-- withdrawing a requested subscription removes it and queues exactly one StopSubscribe for that server -/
